@@ -97,7 +97,7 @@ func genPeer(r *rand.Rand) Peer {
 	}
 }
 
-// ManyPorts enables rules with more than 15 ports of one protocol (C16 only).
+// ManyPorts enables rules with more than 15 ports of one protocol (split over several iptables rules since 8f04d5f).
 var ManyPorts = false
 
 var portPalette = []Port{{"tcp", 80, true}, {"tcp", 81, true}, {"udp", 53, true}, {"tcp", 443, true},
@@ -130,7 +130,7 @@ func genRule(r *rand.Rand, tame bool) Rule {
 			ru.Peers[i].Except = ex
 		}
 	}
-	if !tame && ManyPorts && r.Intn(100) < 5 {
+	if ManyPorts && r.Intn(100) < 5 {
 		// more ports than one multiport match takes: 16-40 of one protocol, sometimes with a few of the other one
 		proto := pick(r, []string{"tcp", "udp"})
 		for i, n := 0, 16+r.Intn(25); i < n; i++ {
